@@ -2,7 +2,7 @@
    proofs) of
      pkg/eval/vals/repr.go          Repr / ReprPlain for nil, bool, string, the
                                     four number types, List, Map; reprMap with
-                                    its sort by CmpTotal
+                                    its sort by CmpTotal, ties broken by the key text
      pkg/eval/vals/repr_helpers.go  ListReprBuilder / MapReprBuilder (buffer,
                                     separators, indentation, tab after =, [&])
    reusing, read-only, the finished models of
@@ -20,7 +20,7 @@
      indent int                 Z; ReprPlain passes math.MinInt, here any
                                 negative number (MinInt + depth never reaches 0)
      bytes.Buffer of a builder  the byte list written so far
-     sort.Slice(pairs, less)    [isort_by]: for at most 12 elements Go runs
+     sort.Slice(pairs, less)    [isort]: for at most 12 elements Go runs
                                 insertionSortLessFunc, which is this stable
                                 insertion sort; longer slices go through
                                 pdqsort, which is NOT modelled (the same result
@@ -105,45 +105,6 @@ Section Sort.
   Definition isort (l : list A) : list A := rev (fold_left (fun racc x => ins_rev x racc) l []).
 End Sort.
 
-(* vals.CmpTotal.  Copied from model/C08_Value.v (cmpg with tot = true) because
-   that shared model no longer tells the two Go list types apart in its type
-   tag, while typeOf in the current cmp.go does (a plain *vector.vector and a
-   slice view *vector.subVector are two type descriptors): [tag4] keeps them
-   apart, and the ranks [rk] are observed from the running code, so equal ranks
-   for the two make this the same function as C08_Value.cmp_total. *)
-Definition tag4 (v : value) : N :=
-  match v with
-  | VNil => 0 | VBool _ => 1
-  | VInt _ | VBig _ | VRat _ | VFloat _ => 2
-  | VStr _ => 3 | VList false _ => 4 | VList true _ => 5 | VMap _ => 6
-  | VOpaque ty _ => 7 + ty
-  end.
-Fixpoint cmp_total4 (rk : N -> Z) (a b : value) {struct a} : ordering :=
-  let inner :=
-    match a, b with
-    | VNil, VNil => OEq
-    | VBool x, VBool y =>
-      if Bool.eqb x y then OEq else if x then OGt else OLt
-    | VInt _, _ | VBig _, _ | VRat _, _ | VFloat _, _ => cmp_num a b
-    | VStr x, VStr y => bytes_cmp x y
-    | VList _ x, VList _ y =>
-      (fix go (x y : list value) {struct x} : ordering :=
-         match x, y with
-         | p :: x', q :: y' =>
-           match cmp_total4 rk p q with OEq => go x' y' | o => o end
-         | [], [] => OEq
-         | [], _ :: _ => OLt
-         | _ :: _, [] => OGt
-         end) x y
-    | VMap _, _ | VOpaque _ _, _ => if equal a b then OEq else OUn
-    | _, _ => OUn
-    end in
-  match Z.compare (rk (tag4 a)) (rk (tag4 b)) with
-  | Lt => OLt
-  | Gt => OGt
-  | Eq => lift_total inner
-  end.
-
 (* the reader's map construction: m = m.Assoc(k, v) per pair, a key being found
    when its hash and Equal agree (C08_Value.hm_match) *)
 Fixpoint m_assoc (k v : value) (m : list (value * value)) : list (value * value) :=
@@ -186,8 +147,14 @@ Variable pf : bytes -> option N.        (* strconv.ParseFloat(s, 64) *)
 Variable fmtF fmtE : N -> bytes.        (* strconv.FormatFloat(f, 'f' / 'e', -1, 64) *)
 Variable rk : N -> Z.                   (* order of the Go type descriptors *)
 
-Definition key_lt {X} (a b : value * X) : bool :=
-  match cmp_total4 rk (fst a) (fst b) with OLt => true | _ => false end.
+(* the less function reprMap hands to sort.Slice: CmpTotal on the keys, ties
+   broken by the text already printed for the keys (Go string comparison) *)
+Definition key_lt {X} (a b : value * (bytes * X)) : bool :=
+  match cmp_total rk (fst a) (fst b) with
+  | OLt => true
+  | OEq => match bytes_cmp (fst (snd a)) (fst (snd b)) with OLt => true | _ => false end
+  | _ => false
+  end.
 
 (* -------------------------------- repr.go -------------------------------- *)
 Definition repr_num (n : C05.num) : bytes := sNumOpen ++ C05.to_string fmtF fmtE n ++ [41].
@@ -378,17 +345,19 @@ Definition read_expr (src : bytes) : eres :=
   | RFuel => EFuel
   end.
 
-(* what the reader makes of repr's output: lists become plain lists, map
-   entries come in printed (sorted) order and are re-inserted, a NaN becomes
-   the NaN that ParseFloat returns *)
-Fixpoint norm (v : value) : value :=
+(* what the reader makes of repr's output (printed at indent ind): lists become
+   plain lists, map entries come in printed (sorted) order and are re-inserted,
+   a NaN becomes the NaN that ParseFloat returns *)
+Fixpoint norm (v : value) (ind : Z) {struct v} : value :=
   match v with
   | VFloat b =>
     if C05.is_nan b then match pf C05.sNaN with Some b' => VFloat b' | None => VFloat b end
     else VFloat b
-  | VList _ l => VList false (map norm l)
+  | VList _ l => VList false (map (fun e => norm e (ind + 1)) l)
   | VMap m =>
-    VMap (rebuild (map snd (isort key_lt (map (fun e => (fst e, (norm (fst e), norm (snd e)))) m))))
+    VMap (rebuild (map (fun x => snd (snd x))
+      (isort key_lt (map (fun e => (fst e, (repr (fst e) (ind + 1),
+                                            (norm (fst e) (ind + 1), norm (snd e) (ind + 2))))) m))))
   | _ => v
   end.
 
@@ -591,7 +560,7 @@ Fixpoint same (a b : value) {struct a} : bool :=
 
 Record case := mkCase {
   c_ind : Z;            (* indent given to vals.Repr (negative: ReprPlain) *)
-  c_rk : bytes;         (* rank of the type of nil, bool, number, string, list, sliced list, map *)
+  c_rk : bytes;         (* rank of the type of nil, bool, number, string, list, map (C08_Value.tag) *)
   c_tbl : bytes;        (* unicode.IsPrint of the non-ASCII runes around *)
   c_ftab : bytes;       (* strconv.FormatFloat of the floats around *)
   c_pftab : bytes;      (* strconv.ParseFloat of the texts the model asks about *)
